@@ -56,7 +56,11 @@ def run_generic(pid, oracle, tier, seed, exhaustive_depth=None):
         hi, hm = bc.run_pair(lines, sc)
     hdiff, viol, kf_hits = [], [], {}
     nontrivial = set()
+    skipped_clock = 0
     for (fam, h), line, a, b in zip(hs, lines, hi, hm):
+        if bc.repeated_rename_conflict(a) or bc.repeated_rename_conflict(b):
+            skipped_clock += 1          # two rename conflicts on one path: the outcome depends on whether they fall into one second
+            continue
         if a != b:
             hdiff.append((line, a, b))
         snaps = bc.parse_out(a)
@@ -77,6 +81,7 @@ def run_generic(pid, oracle, tier, seed, exhaustive_depth=None):
     res.cov["evaluations"] = len(kcases) + len(lines)
     res.cov["classifier_cases"] = len(kcases)
     res.cov["histories"] = len(lines)
+    res.cov["histories_skipped_repeated_rename_conflict"] = skipped_clock
     res.cov["families"] = {f: sum(1 for x, _ in hs if x == f) for f in set(x for x, _ in hs)}
     res.cov["distinct_nontrivial"] = len(nontrivial) + len(set(ki))
     res.cov["model_impl_disagreements"] = len(kdiff) + len(hdiff)
